@@ -834,7 +834,7 @@ func Run(cfg fw.Config, rec *fw.Rec) {
 			docs = append(docs, docCase{Doc: a.YAML(true), Loader: "jsccast-yaml", Damage: "none-yaml-jsonpatterns"})
 		}
 	}
-	nRandom := cfg.Pick(1500, 20000) / cfg.Batches
+	nRandom := cfg.Pick(1500, 100000) / cfg.Batches
 	for i := 0; i < nRandom; i++ {
 		idx := cfg.Batch*1000000 + i
 		r := cfg.Rng("c07-dmg", idx)
